@@ -5,7 +5,7 @@
    the equalities also carry the timing clause of the property.
    Machines: Ops/Elementwise.v (tied to the code by the K2 correspondence). *)
 From RxVerif Require Import Base.Prelude Ops.Machine Ops.MachineFacts Ops.Elementwise
-  Ops.ElementwiseFacts Ops.ElementwiseMore.
+  Ops.ElementwiseFacts Ops.ElementwiseMore Ops.ComposeTagged Ops.AggregatesTagged.
 
 Theorem C05_map : forall A B (f : A -> B) xs t,
   exec (op_map (pure f)) (events xs t) = nexts (indexed 1 (map f xs)) ++ tterm (S (length xs)) t.
@@ -235,4 +235,33 @@ Proof. vm_compute. reflexivity. Qed.
 Example C05_witness_pluck :
   untag (exec (op_pluck Z.eqb 0 (-5)) (events [[(0, 7)]; [(1, 8); (0, 9)]; [(1, 3)]; [(0, 4)]] TDone))
   = [Next 7; Next 9; Err (-5)].
+Proof. vm_compute. reflexivity. Qed.
+
+(* ---- additions: take_last_buffer on a failing source; skip_while_indexed WITH the positions ------------- *)
+(* a failing source: the buffered elements are dropped, the error passes at its own position *)
+Theorem C05_take_last_buffer_error : forall A c (xs : list A) e,
+  exec (op_take_last_buffer c) (events xs (TErr e)) = [(S (length xs), Err e)].
+Proof. exact @take_last_buffer_error. Qed.
+Print Assumptions C05_take_last_buffer_error.
+(* all terminations at once (TNever: nothing yet) *)
+Theorem C05_take_last_buffer_any_termination : forall A c (xs : list A) t, 0 <= c ->
+  exec (op_take_last_buffer c) (events xs t)
+  = at_end (S (length xs)) t (skipn (length xs - Z.to_nat c) xs).
+Proof. exact @take_last_buffer_any. Qed.
+Print Assumptions C05_take_last_buffer_any_termination.
+
+(* skip_while_indexed (the three-stage pipeline the code builds) with the timing clause, through the TAGGED
+   composition theorem: every surviving element at its own position, the terminal at the source's *)
+Theorem C05_composition_tagged : forall A B C (m1 : mealy A B) (m2 : mealy B C) ins,
+  exec (compose m1 m2) ins = exec_tagged m2 (exec m1 ins).
+Proof. exact @compose_exec_tagged. Qed.
+Print Assumptions C05_composition_tagged.
+Theorem C05_skip_while_indexed_tagged : forall A (p : A -> nat -> bool) (xs : list A) t,
+  exec (op_skip_while_indexed (pure2 p)) (events xs t)
+  = nexts (dropwhile_it p 0 (indexed 1 xs)) ++ tterm (S (length xs)) t.
+Proof. exact @skip_while_indexed_tagged. Qed.
+Print Assumptions C05_skip_while_indexed_tagged.
+Example C05_witness_skip_while_indexed_tagged :
+  exec (op_skip_while_indexed (pure2 (fun (x : Z) (i : nat) => x <? Z.of_nat i + 2))) (events [1; 2; 9; 0] TDone)
+  = [(3%nat, Next 9); (4%nat, Next 0); (5%nat, Done)].
 Proof. vm_compute. reflexivity. Qed.
